@@ -30,3 +30,27 @@ Theorem C12_completion_contained_mp11 : forall cf parents contained mc children 
   exists c rn' g', process_completion cf parents contained mc children fuel s r rn g = (Some c, rn', g').
 Proof. intros. apply nt_process_completion. Qed.
 Print Assumptions C12_completion_contained_mp11.
+
+(* not wedged, part 1 (fix F8): the whole-machine probe of the translator (Generated.v, recomputed from /repo on every
+   run) reports, for each engine, that a submachine whose entry cascade threw dispatches the next event at once *)
+Theorem C12_entry_throw_marker_probed :
+  back_entry_throw_resets = true /\ back11_entry_throw_resets = true /\ mp11_entry_throw_resets = true.
+Proof. repeat split; reflexivity. Qed.
+Print Assumptions C12_entry_throw_marker_probed.
+
+(* ... and in the model that follows that probe: when the entry of submachine state s is left through an exception -
+   whatever threw: the front-end's on_entry, an initial state's entry at any depth, a behaviour run for an event that a
+   behaviour submitted - the submachine's processing marker is clear afterwards *)
+Theorem C12_entry_throw_clears_marker_back : forall cf mc children fuel s ev k co rn g rn' g',
+  entry_throw_resets cf = true -> child children s = Some co ->
+  exec_entry cf mc children fuel s ev k rn g = (None, rn', g') ->
+  forall kn, nth s (kids rn') None = Some kn -> processing kn = false.
+Proof. exact back_entry_throw_clears_marker. Qed.
+Print Assumptions C12_entry_throw_clears_marker_back.
+
+Theorem C12_entry_throw_clears_marker_mp11 : forall cf mc children contained fwd fuel s ev k co rn g rn' g',
+  mp11_entry_throw_resets = true -> mchild children s = Some co ->
+  mexec_entry_gen cf contained mc children fwd fuel s ev k rn g = (None, rn', g') ->
+  forall kn, nth s (kids rn') None = Some kn -> processing kn = false.
+Proof. exact mp11_entry_throw_clears_marker. Qed.
+Print Assumptions C12_entry_throw_clears_marker_mp11.
